@@ -103,4 +103,10 @@ META = {
   text="The full product of switches, addresses, cookie states, methods and password guesses (about 6 300 requests) is enumerated against the decision table derived from the statement; the real binary is probed for the wrapping of the five protected routes.",
   note="Trusted: net/http/httptest, the decision table in the test. The generated password is read from the handler's log output.",
  ),
+ "C15": dict(
+  design_ref="DESIGN.md §5 C15",
+  technique="per-configuration exhaustive replacement of every string position by marker-carrying hostile strings; oracle on every SQL text the fake Postgres receives (marker search + statement-shape whitelist) and on the validation verdict",
+  text="For each generated configuration every string position (about 90) is attacked in turn with hostile strings and the complete life cycle is run when validation accepts; the fake server records every SQL text, so a spliced value is observed directly. Dashboard submissions are attacked the same way.",
+  note="Trusted: fakepg's statement whitelist (anything else is 'unrecognised SQL') and raw SQL text log.",
+ ),
 }
